@@ -106,7 +106,8 @@ def classify(case, result):
 def shrink_candidates(case):
     groups = case.split()
     for k in range(len(groups)):
-        yield ' '.join(groups[:k] + groups[k + 1:])
+        if len(groups) > 1:
+            yield ' '.join(groups[:k] + groups[k + 1:])
     for k, g in enumerate(groups):
         if g[0] in 'IT':
             ops = g[2:].split(';')
